@@ -674,6 +674,9 @@ func (r *runner) finalChecks() {
 	if r.has("reads-stay-in-ledger") {
 		r.addV(checkReadsStayInLedger(r, views)...)
 	}
+	if r.has("import-exclusive") {
+		r.addV(checkWritesRacingImport(r)...)
+	}
 	if r.has("current-metadata") {
 		r.addV(checkCurrentMetadata(r, views)...)
 	}
